@@ -3,6 +3,7 @@ import VarmqVerif.Model.PQ
 import VarmqVerif.Model.Manager
 import VarmqVerif.Model.Config
 import VarmqVerif.Model.Codec
+import VarmqVerif.Model.JobCfg
 import Driver.Parse
 /-!
   White-box container differential (DESIGN.md §3.4): the harness prints, per operation on the real
@@ -27,6 +28,7 @@ inductive DState where
   | manager (strategy : Nat) (lens : List Int) (rr : Nat)
   | config (cpus : Nat)
   | codec
+  | jobcfg
 
 structure DAcc where
   st : DState := .none
@@ -118,6 +120,20 @@ def stepD (st : DState) (op : String) (args : List String) : Except String (DSta
       | none => .ok (st, "e:invalid", "-", true)
     | "roundtrip", _ => .ok (st, "b:true", "-", false)   -- encoding/json fidelity: a test of the assumed law, not a model run
     | _, _ => .error s!"unknown codec op {op}"
+  | .jobcfg =>
+    -- JSON string literals / arrays of the harness: strip quotes, split on `","`
+    let unq := fun (q : String) => (((q.replace "%20" " ").drop 1).dropEnd 1).toString
+    match op, args with
+    | "load", [gen, js] =>
+      let inner := (((js.replace "%20" " ").drop 1).dropEnd 1).toString
+      let ids := if inner.isEmpty then [] else (inner.splitOn ",").map unq
+      .ok (st, s!"s:{(JobCfg.loadJobConfigs gen ids).replace " " "%20"}", "-", ids.any (· != ""))
+    | "group", [q] => .ok (st, s!"s:{(JobCfg.groupId (unq q)).replace " " "%20"}", "-", true)
+    | "helper", [k, isNil] =>
+      let h : JobCfg.Helper := match natOf k with | 0 => .func | 1 => .errFunc | _ => .resultFunc
+      let o := match JobCfg.helperOutcome h (isNil == "true") with | .ran => "ran" | .panicNil => "panicNil" | .errNil => "errNil"
+      .ok (st, s!"s:{o}", "-", isNil == "true")
+    | _, _ => .error s!"unknown jobcfg op {op}"
   | .none => .error "D line before DC"
 
 def endCase (a : DAcc) : DAcc :=
@@ -138,6 +154,7 @@ partial def diffLoop (h : IO.FS.Stream) (a : DAcc) : IO DAcc := do
       | "manager", strat :: rest => .manager (natOf strat) (csvInt (rest.headD "")) 0
       | "config", [cpus] => .config (natOf cpus)
       | "codec", _ => .codec
+      | "jobcfg", _ => .jobcfg
       | _, _ => .none
     diffLoop h { a with st := st, case_ := c, curHash := mixHash 7 (hash line) }
   | "D" :: c :: op :: rest =>
